@@ -29,7 +29,7 @@ Proof.
     destruct (g_rows _ _ _ _ _ G o' k H K) as [v [Hw Hv]]. exists v. split; auto.
     unfold updN. destruct (Nat.eqb_spec o' o); subst; auto.
   - intros o'. destruct (U o') as [A1 [B1 _]]. rewrite A1, B1. apply (g_new _ _ _ _ _ G).
-  - intros o' H. destruct (U o') as [_ [_ [C1 _]]]. rewrite C1. eapply g_newd; eauto.
+  - intros o' H K. destruct (U o') as [A1 [_ [C1 _]]]. rewrite C1. rewrite A1 in K. eapply g_newd; eauto.
   - intros o' H. destruct (U o') as [_ [_ [_ D1]]]. rewrite D1. eapply g_del; eauto.
   - apply (g_nodup _ _ _ _ _ G).
   - intros o' k Hn K A D. destruct (U o') as [A1 [B1 [C1 D1]]]. rewrite A1 in K. rewrite B1 in A. rewrite C1 in D.
